@@ -11,7 +11,7 @@ use chumsky::inspector::Inspector;
 use chumsky::prelude::*;
 use chumsky::text;
 
-use crate::ast::all_strings;
+use chumsky_verif_harness::ast::all_strings;
 
 /// counts the tokens it is fed (C18: every consumed token must pass through `on_token`, also inside the text parsers)
 #[derive(Clone, Copy, Default)]
@@ -113,7 +113,7 @@ macro_rules! dispatch {
 }
 
 pub fn main() {
-    crate::run::install_panic_hook();
+    chumsky_verif_harness::run::install_panic_hook();
     let stdin = std::io::stdin();
     let stdout = std::io::stdout();
     let mut w = std::io::BufWriter::new(stdout.lock());
